@@ -564,7 +564,7 @@ Record call := {
   c_prefix : path;              (* split raw prefix string *)
   c_jobs : list job;            (* the selected jobs in iteration order *)
   c_pfmake : option exn;        (* _make_path_function(jobs, path) itself raised *)
-  c_all : list path;            (* job.path of project.find_jobs(), used by the empty fallback *)
+  c_all : list path;            (* job.path of project.find_jobs(); unused since cfcb328 removed the fallback *)
 }.
 
 (* import_export._check_directory_structure_validity, as written *)
@@ -604,11 +604,7 @@ Definition make_links (c : call) : result links :=
   else match c_pfmake c with
        | Some e => Err e
        | None =>
-           match build_links (c_jobs c) [] with
-           | Err e => Err e
-           | Ok [] => Ok (fold_left (fun acc d => aset s_dotjob d acc) (c_all c) [])
-           | Ok lk => Ok lk
-           end
+           build_links (c_jobs c) []      (* cfcb328: no "./job" fallback for an empty selection *)
        end.
 
 Definition create_linked_view (hint : list path) (s : st) (c : call) : result links * st :=
